@@ -209,7 +209,31 @@ def sx(name, **kw):
     return [t]
 
 
+_cost_table = None
+
+
+def _cost(t):
+    """measured executions of this task (checks/costs.json, written by bin/update-costs from earlier runs);
+    unknown tasks count as cheap so that they are run (and measured) rather than starved"""
+    global _cost_table
+    if _cost_table is None:
+        try:
+            _cost_table = json.load(open(os.path.join(os.path.dirname(os.path.abspath(__file__)), "costs.json")))
+        except Exception:  # noqa
+            _cost_table = {}
+    if t.get("engine") != "dsched":
+        return -1
+    key = "%s:%d:%d:%s:%s" % (t["harness"], t["variant"], t["k"], t.get("mode", "pb"), "full" if t.get("env", {}).get("VX_IO_FULL") else "")
+    return _cost_table.get(key, 0)
+
+
 def tasks_for(pid, tier):
+    """cheapest first: a wall-clock budget then cuts only the most expensive programs"""
+    ts = _tasks_for(pid, tier)
+    return sorted(ts, key=_cost)     # stable: equal costs keep the hand-written order
+
+
+def _tasks_for(pid, tier):
     q = tier == "quick"
     if pid == "C12":
         return sx("time_c12")
